@@ -218,26 +218,41 @@ impl DegreeMeta for Expression {
                 result
             }
             Access { meta, var, access } => {
-                // Accesses are ignored when determining the degree of a variable.
+                // Accesses are ignored when determining the degree of a variable,
+                // unless an index is known to depend on a signal: `a[s]` selects an
+                // element based on the value of `s` and is not a polynomial in `s`.
+                let mut constant_index = true;
                 for access in access.iter_mut() {
                     if let AccessType::ArrayAccess(index) = access {
-                        result = result || index.propagate_degrees(env);
+                        result = index.propagate_degrees(env) || result;
+                        if let Some(range) = index.degree() {
+                            constant_index = constant_index && range.is_constant();
+                        }
                     }
                 }
-                if let Some(range) = env.degree(var) {
+                if !constant_index {
+                    result = result || meta.degree_knowledge_mut().set_degree(&NonQuadratic.into());
+                } else if let Some(range) = env.degree(var) {
                     result = result || meta.degree_knowledge_mut().set_degree(range);
                 }
                 result
             }
             Update { meta, var, access, rhe, .. } => {
-                // Accesses are ignored when determining the degree of a variable.
+                // Accesses are ignored when determining the degree of a variable,
+                // unless an index is known to depend on a signal (see `Access`).
                 result = result || rhe.propagate_degrees(env);
+                let mut constant_index = true;
                 for access in access.iter_mut() {
                     if let AccessType::ArrayAccess(index) = access {
-                        result = result || index.propagate_degrees(env);
+                        result = index.propagate_degrees(env) || result;
+                        if let Some(range) = index.degree() {
+                            constant_index = constant_index && range.is_constant();
+                        }
                     }
                 }
-                if env.degree(var).is_none() {
+                if !constant_index {
+                    result = result || meta.degree_knowledge_mut().set_degree(&NonQuadratic.into());
+                } else if env.degree(var).is_none() {
                     // This is the first assignment to the array. The degree is given by the RHS.
                     if let Some(range) = rhe.degree() {
                         result = result || meta.degree_knowledge_mut().set_degree(range);
